@@ -447,4 +447,100 @@ Proof.
   intros Ho Hfr H. exact (proj1 (typed_subst_prov_mut Δ old (ident old) Ho eq_refl) _ _ _ _ _ H Hfr).
 Qed.
 
+(* ------------------------------------------------------------------ a name that is not free is not touched *)
+Lemma client_ty_subst_id Δ Γ sh old new x n t :
+  chan old = None -> ident old = x -> Γ !! x = None ->
+  client_ty Δ Γ sh n t -> name_subst old new n = n.
+Proof.
+  intros Ho Hx Hfr [H1 H2]. rewrite name_subst_old_var by auto. unfold initialized.
+  destruct (chan n) as [d|]; simpl; auto.
+  destruct H2 as [_ [t' [H3 _]]]. rewrite Hx.
+  destruct (String.eqb (ident n) x) eqn:E; auto. apply String.eqb_eq in E. rewrite E in H3. congruence.
+Qed.
+
+Lemma args_ok_subst_id Δ Γ sh old new x args ps :
+  chan old = None -> ident old = x -> Γ !! x = None ->
+  args_ok Δ Γ sh args ps -> map (name_subst old new) args = args.
+Proof.
+  intros Ho Hx Hfr H. induction H as [|a p args ps [t [H1 H2]] H IH]; simpl; auto.
+  rewrite IH. erewrite client_ty_subst_id; eauto.
+Qed.
+
+Lemma subst_id_mut Δ old new x :
+  chan old = None -> ident old = x ->
+  (forall Γ sh rs s f, typed Δ Γ sh rs s f -> Γ !! x = None -> sh <> Some x -> x ∉ rs -> subst old new f = f) /\
+  (forall Γ rs bs b, typed_brs_p Δ Γ rs bs b -> Γ !! x = None -> x ∉ rs -> subst_brs old new b = b) /\
+  (forall Γ sh rs s bs b, typed_brs_c Δ Γ sh rs s bs b -> Γ !! x = None -> sh <> Some x -> x ∉ rs ->
+     subst_brs old new b = b).
+Proof.
+  intros Ho Hx.
+  assert (Hcl : forall Γ sh n t, Γ !! x = None -> client_ty Δ Γ sh n t -> name_subst old new n = n)
+    by (intros; eapply client_ty_subst_id; eauto).
+  assert (Hpr : forall sh rs n, sh <> Some x -> x ∉ rs -> prov_name sh rs n -> name_subst old new n = n)
+    by (intros; eapply prov_name_subst; eauto).
+  apply typed_mutind; intros; simpl;
+    repeat match goal with
+           | H : binder ?b |- context [name_equal ?b old] => rewrite (binder_eqb b old) by auto
+           end; rewrite ?Hx;
+    repeat match goal with
+           | H : prov_name ?sh ?rs ?n |- context [name_subst old new ?n] => rewrite (Hpr sh rs n) by assumption
+           | H : RtTyping.client_ty _ _ ?G ?sh ?n ?t |- context [name_subst old new ?n] =>
+             rewrite (Hcl G sh n t) by assumption
+           end.
+  - (* SendP *) reflexivity.
+  - (* SendC *) reflexivity.
+  - (* RecvP *) f_equal.
+    destruct (String.eqb (ident pay) x) eqn:E1; simpl; auto.
+    destruct (String.eqb (ident cont) x) eqn:E2; simpl; auto.
+    apply String.eqb_neq in E1. apply String.eqb_neq in E2.
+    match goal with IH : _ -> _ -> _ -> subst old new k = k |- _ => apply IH end;
+      [rewrite lookup_insert_ne; auto | congruence | set_solver].
+  - (* RecvC *) f_equal.
+    destruct (String.eqb (ident pay) x) eqn:E1; simpl; auto.
+    destruct (String.eqb (ident cont) x) eqn:E2; simpl; auto.
+    apply String.eqb_neq in E1. apply String.eqb_neq in E2.
+    match goal with IH : _ -> _ -> _ -> subst old new k = k |- _ => apply IH end;
+      [rewrite !lookup_insert_ne; auto | auto | set_solver].
+  - (* SelP *) reflexivity.
+  - (* SelC *) reflexivity.
+  - (* CaseP *) f_equal. eauto.
+  - (* CaseC *) f_equal. eauto.
+  - (* New *)
+    match goal with IHb : _ -> _ -> _ -> subst old new body = body |- _ => rewrite IHb by (auto; discriminate) end.
+    f_equal. destruct (String.eqb (ident x0) x) eqn:E1; simpl; auto. apply String.eqb_neq in E1.
+    match goal with IH : _ -> _ -> _ -> subst old new k = k |- _ => apply IH end;
+      [rewrite lookup_insert_ne; auto | auto | set_solver].
+  - (* Close *) reflexivity.
+  - (* Wait *) f_equal. eauto.
+  - (* Fwd *) reflexivity.
+  - (* Call *)
+    match goal with H : _ \/ _ |- _ => destruct H as [[? Ha]|[a0 [rest [-> [? [Hp Ha]]]]]] end.
+    + erewrite args_ok_subst_id; eauto.
+    + simpl. rewrite (Hpr sh rs a0) by assumption. erewrite args_ok_subst_id; eauto.
+  - (* CastP *) reflexivity.
+  - (* CastC *) reflexivity.
+  - (* ShiftP *) f_equal.
+    destruct (String.eqb (ident x0) x) eqn:E1; simpl; auto. apply String.eqb_neq in E1.
+    match goal with IH : _ -> _ -> _ -> subst old new k = k |- _ => apply IH end; [auto | congruence | set_solver].
+  - (* ShiftC *) f_equal.
+    destruct (String.eqb (ident x0) x) eqn:E1; simpl; auto. apply String.eqb_neq in E1.
+    match goal with IH : _ -> _ -> _ -> subst old new k = k |- _ => apply IH end;
+      [rewrite lookup_insert_ne; auto | auto | set_solver].
+  - (* Print *) f_equal. eauto.
+  - reflexivity.
+  - (* brs_p cons *) f_equal; [|eauto].
+    destruct (String.eqb (ident pay) x) eqn:E1; simpl; auto. apply String.eqb_neq in E1.
+    match goal with IH : _ -> _ -> _ -> subst old new k = k |- _ => apply IH end; [auto | congruence | set_solver].
+  - reflexivity.
+  - (* brs_c cons *) f_equal; [|eauto].
+    destruct (String.eqb (ident pay) x) eqn:E1; simpl; auto. apply String.eqb_neq in E1.
+    match goal with IH : _ -> _ -> _ -> subst old new k = k |- _ => apply IH end;
+      [rewrite lookup_insert_ne; auto | auto | set_solver].
+Qed.
+
+Lemma subst_not_free Δ Γ sh rs s f old new :
+  chan old = None -> Γ !! ident old = None -> sh <> Some (ident old) -> ident old ∉ rs ->
+  typed Δ Γ sh rs s f -> subst old new f = f.
+Proof. intros Ho Hfr Hsh Hrs H. eapply (subst_id_mut Δ old new (ident old)); eauto. Qed.
+
 End RtSubst.
